@@ -33,7 +33,7 @@ Ids(rs) == [i \in 1..Len(rs) |-> rs[i].id]
 \* the release performed at the current step is the declared one (rows, order, multiplicity)
 OpIsDecl == [][(phase = "run" /\ phase' = "run") =>
                  Ids(Expand(OpUpdate(c, D, idx, step')[1])) = Ids(Expand(DeclAt(c, tb, step')))]_vars
-RefuseIffEmpty == (phase = "refused" => NoRowInWindow(c, tb)) /\ (phase = "run" => ~NoRowInWindow(c, tb) \/ \E i \in 1..Len(tb) : Sim(c, tb[i].t) = Dur(c))
+RefuseIffEmpty == (phase = "refused" => NoRowInWindow(c, tb)) /\ (phase = "run" => ~NoRowInWindow(c, tb))
 \* at the end every row in the window has yielded exactly mult particles
 RECURSIVE SumMult(_)
 SumMult(rs) == IF rs = <<>> THEN 0 ELSE Head(rs).mult + SumMult(Tail(rs))
